@@ -128,6 +128,14 @@ fn main() {
                 let stack = args.get(i + 3).and_then(|s| s.parse::<usize>().ok());
                 std::process::exit(props::c01::ladder_worker(&construct, depth, stack));
             }
+            "--worker" => {
+                // child-process worker of a property that isolates abort-prone cases
+                let rest: Vec<String> = args[i + 1..].to_vec();
+                std::process::exit(match id.as_str() {
+                    "C12" => props::c12::worker(&rest),
+                    _ => 2,
+                });
+            }
             "--replay" => {
                 i += 1;
                 let p = args.get(i).cloned().unwrap_or_else(|| usage());
